@@ -17,6 +17,7 @@ structure whole_Rel (c : Cfg) (p : Bytes) (L : JitAst.Layout) (retAddr : Nat) (t
   top : topBytes σ s = some top
   start : ∃ i, (s.pc, i) ∈ whole_starts p
   rip : ∃ l, L.pcLocs[s.pc]? = some l ∧ σ.rip = c.codeBase + l
+  depth0 : s.frames = []
 
 theorem whole_arm_n (haddr : Nat → Option Nat) (pc : Nat) (i : Insn) (nx : Option Insn) (ais : List AI) (n : Nat)
     (h : JitAst.arm haddr pc i nx = .ok (ais, n)) : n = (if i.opc = 0x18 then 2 else 1) := by
@@ -65,10 +66,10 @@ theorem whole_exit_sim (env : Env) (haddr : Nat → Option Nat) (um ud : Bool) (
     ∃ σ', stepsN c 1 σ = some σ' ∧ σ'.rip = retAddr ∧ σ'.get 0 = r0 ∧ MemRel σ'.mem s'.mem ∧
       (σ'.get X86.RSP).toNat = s'.mem.stack.base ∧ topBytes σ' s' = some top ∧
       σ'.log = σ.log ∧ σ'.misaligned = σ.misaligned ∧ s'.log = s.log := by
-  obtain ⟨hrel0, htop, ⟨i, hstart⟩, ⟨a, hloc, hrip⟩⟩ := hrel
+  obtain ⟨hrel0, htop, ⟨i, hstart⟩, ⟨a, hloc, hrip⟩, hd0⟩ := hrel
   rw [whole_jitStep_at env s i hstart] at hstep
   have h95 := whole_jitExec_done env _ i r0 s' hstep
-  rw [whole_jitExec_exit env { s with pc := s.pc + 1 } i h95 hrel0.frames] at hstep
+  rw [whole_jitExec_exit env { s with pc := s.pc + 1 } i h95 hd0] at hstep
   simp only [Outcome.done.injEq] at hstep
   obtain ⟨hr0, hs'⟩ := hstep
   subst hs'
@@ -77,7 +78,7 @@ theorem whole_exit_sim (env : Env) (haddr : Nat → Option Nat) (um ud : Bool) (
   cases hloc'
   have hais := (whole_arm_shape haddr s.pc i _ ais n harm).2 h95
   subst hais
-  obtain ⟨σ', h1, h2, h3, h4, h5, h6, h7⟩ := whole_exit_machine c (whole_tgt env.prog L) retAddr σ s a b hchk hrip hrel0 hret hretlt
+  obtain ⟨σ', h1, h2, h3, h4, h5, h6, h7⟩ := whole_exit_machine c (whole_tgt env.prog L) retAddr σ s a b hchk hrip hrel0 hd0 hret hretlt
   refine ⟨σ', h1, h2, h3.trans hr0, ?_, h5, ?_, h6, h7, rfl⟩
   · rw [h4]; exact hrel0.mem
   · unfold topBytes at htop ⊢
@@ -125,22 +126,23 @@ theorem whole_step_sim (env : Env) (haddr : Nat → Option Nat) (um ud : Bool) (
     (hrel : whole_Rel c env.prog L retAddr top σ s) (hstep : EngineSem.jitStep env s = .next s') :
     ∃ k σ', stepsN c k σ = some σ' ∧
       ((getInsn? env.prog s'.pc).isSome → whole_Rel c env.prog L retAddr top σ' s') := by
-  obtain ⟨hrel0, htop, ⟨i, hstart⟩, ⟨a, hloc, hrip⟩⟩ := hrel
+  obtain ⟨hrel0, htop, ⟨i, hstart⟩, ⟨a, hloc, hrip⟩, hd0⟩ := hrel
   rw [whole_jitStep_at env s i hstart] at hstep
   have hopc : i.opc.toNat ∈ whole_coveredOpcodes := by
     rcases hcov _ hstart with h | h
     · exact h
-    · rw [whole_jitExec_exit env { s with pc := s.pc + 1 } i h hrel0.frames] at hstep
+    · rw [whole_jitExec_exit env { s with pc := s.pc + 1 } i h hd0] at hstep
       cases hstep
   obtain ⟨ais, n, a', b, harm, hloc', hchk, hlocb⟩ := whole_validate_arm env.prog haddr um ud c.code L hv s.pc i hstart
   rw [hloc] at hloc'
   cases hloc'
   have hb : b ≤ c.code.size := whole_locOf_le env.prog haddr um ud c.code L hv _ b hlocb
-  obtain ⟨k, σ', hk, hrel0', htop', -, -, -, hdisj⟩ :=
+  obtain ⟨k, σ', hk, hrel0', htop', -, -, -, hfr, -, hdisj⟩ :=
     hA i hopc c (whole_tgt env.prog L) haddr s.pc n a b retAddr ais σ env { s with pc := s.pc + 1 } s' harm hchk (by omega) hrip
       (rel0_pc retAddr σ s _ hrel0) rfl hstep
   refine ⟨k, σ', hk, fun hsome => ?_⟩
   have htop'' : topBytes σ' s' = some top := htop'.trans htop
+  have hd0' : s'.frames = [] := hfr.trans hd0
   rcases hdisj with ⟨hpc, hrip'⟩ | ⟨l, htgt, hrip'⟩
   · obtain ⟨j, hj⟩ := Option.isSome_iff_exists.mp hsome
     have hn := whole_arm_n haddr s.pc i _ ais n harm
@@ -148,12 +150,12 @@ theorem whole_step_sim (env : Env) (haddr : Nat → Option Nat) (um ud : Bool) (
     have hnext := whole_starts_next env.prog s.pc i j hstart hj'
     rw [← hn, ← hpc] at hnext
     have hlt := (whole_starts_mem _ _ _ hnext).2
-    refine ⟨hrel0', htop'', ⟨j, hnext⟩, b, ?_, hrip'⟩
+    refine ⟨hrel0', htop'', ⟨j, hnext⟩, ⟨b, ?_, hrip'⟩, hd0'⟩
     unfold whole_locOf at hlocb
     rw [← hpc, if_pos hlt] at hlocb
     exact hlocb
   · obtain ⟨hst, hl⟩ := whole_tgt_pc env.prog L s'.pc l htgt
-    exact ⟨hrel0', htop'', hst, l, hl, hrip'⟩
+    exact ⟨hrel0', htop'', hst, ⟨l, hl, hrip'⟩, hd0'⟩
 
 
 /-- runs -/
